@@ -37,6 +37,16 @@ def replay_engine(prog):
     return f
 
 
+def replay_c04(ctx, path):
+    """replays of the signed sessions go to mc_sig, the others to mc_hist"""
+    import json as _json
+    with open(path) as fh:
+        rec = _json.load(fh)
+    rp = rec.get("replay") or rec
+    prog = "mc_sig" if rp.get("engine") == "mc_sig" else "mc_hist"
+    return subprocess.run([os.path.join(ctx.bdir, prog), "--replay", path]).returncode
+
+
 # ------------------------------------------------------------------------------------------- C01
 def run_c01(ctx):
     r = run_engine(ctx, "mc_script", ["--mode", "c01"])
@@ -95,6 +105,13 @@ def run_c04(ctx):
         "rewinds_accepted": r["rewinds_accepted"], "rewinds_refused": r["rewinds_refused"], "rewinds_undoing_a_state_changing_step": r["nontrivial_rewinds"],
         "history_tree_histories": r["tree_histories"],
     }
+    # sessions with real signatures (mc_sig --mode c04sig): every depth, every number of rewinds, continued to the end
+    rs = run_engine(ctx, "mc_sig", ["--mode", "c04sig"])
+    if "infra_error" in rs:
+        return _infra("model_checking", rs)
+    r["violations"] = list(r["violations"]) + list(rs["violations"])
+    cov["signed_sessions"] = {"engine": "mc_sig --mode c04sig", "sessions": rs.get("sessions"), "steps_and_rewinds": rs.get("steps"),
+                              "rule": "ECDSA templates (single checks, code separators between checks, multisig) x {BASE, WITNESS_V0} x transaction shapes, signed by the independent signer: for every depth M and every R <= M, M steps + R rewinds + run to the end reproduce the uninterrupted run's stack trace"}
     vac = None
     if r["sessions"] < 100 or r["nontrivial_rewinds"] < 100:
         vac = "vacuous exploration: %d sessions, %d non-trivial rewinds" % (r["sessions"], r["nontrivial_rewinds"])
@@ -365,7 +382,7 @@ PROPS = {
     "C10": dict(targets=["mc_bounds"], run=run_c10, replay=replay_engine("mc_bounds")),
     "C17": dict(targets=["mc_bounds"], run=run_c17, replay=replay_engine("mc_bounds")),
     "C18": dict(targets=["mc_bounds"], run=run_c18, replay=replay_engine("mc_bounds")),
-    "C04": dict(targets=["mc_hist"], run=run_c04, replay=replay_engine("mc_hist")),
+    "C04": dict(targets=["mc_hist", "mc_sig"], run=run_c04, replay=replay_c04),
     "C16": dict(targets=["mc_hist"], run=run_c16, replay=replay_engine("mc_hist")),
     "C01": dict(targets=["mc_script", "mc_sig"], run=run_c01, replay=lambda ctx, path: replay_engine("mc_sig" if '"engine": "mc_sig"' in open(path).read() else "mc_script")(ctx, path)),
 }
